@@ -59,6 +59,9 @@ _ALPHABETS = [
     "åäößΩ",  # 2-byte
     "€中文�",  # 3-byte
     "\U0001f600\U00010348",  # 4-byte
+    # code points that decoders/normalisers like to treat specially: BOM / zero-width no-break space, NUL, a combining
+    # mark after a base letter, Angstrom sign vs A-ring (NFC/NFKC), line separator, no-break space, a noncharacter
+    "\ufeff\x00e\u0301\u212b\u00c5\u2028\u00a0\ufffe",
 ]
 _LONG_LENGTHS = [126, 127, 128, 129, 16383, 16384, 32766, 32767]
 
@@ -78,7 +81,11 @@ def utf8_bytes(draw, profile: Profile, legacy: bool) -> bytes:
         body = unit * reps
         return body + b"a" * (n - len(body))
     alpha = draw(st.sampled_from(_ALPHABETS + ["".join(_ALPHABETS)]))
-    return draw(st.text(alphabet=alpha, min_size=1, max_size=12)).encode("utf-8")
+    text = draw(st.text(alphabet=alpha, min_size=1, max_size=12))
+    if mode == 3:  # a special code point in first (or last) position
+        special = draw(st.sampled_from(["\ufeff", "\x00", "\u0301", "\u2028", " ", "\ufffe"]))
+        text = special + text if draw(st.booleans()) else text + special
+    return text.encode("utf-8")
 
 
 @st.composite
